@@ -186,9 +186,20 @@ fn do_span(f: &[&str]) -> String {
     let _ = verif::take_spans();
     let r = std::panic::catch_unwind(std::panic::AssertUnwindSafe(|| format!("{}", report)));
     let spans = verif::take_spans();
+    // the same failure once more in the same process (nothing cleared in between): the second report must be produced
+    // and be the same text
+    let mut report2 = ErrorReport::new(dir.to_str().unwrap(), "span_src.rs");
+    report2.push(node(NodeKind::Wildcard, (q[0], q[1], q[2], q[3])), "ACTUAL".into(), None);
+    let r2 = std::panic::catch_unwind(std::panic::AssertUnwindSafe(|| format!("{}", report2)));
+    let _ = verif::take_spans();
+    let again = match (&r, &r2) {
+        (Ok(a), Ok(b)) => (a == b) as u8,
+        (Err(_), Err(_)) => 1,
+        _ => 0,
+    };
     let _ = std::fs::remove_file(&path);
     let _ = std::fs::remove_dir(&path);
-    match r {
+    let line = match r {
         Ok(text) => {
             let hdr = text.contains("assert_struct! failed");
             let lbl = text.contains("got ACTUAL");
@@ -202,7 +213,8 @@ fn do_span(f: &[&str]) -> String {
             [(s, e)] => format!("span {s} {e} PANIC"),
             _ => "PANIC".into(),
         },
-    }
+    };
+    format!("{line} again={again}")
 }
 
 
